@@ -180,6 +180,8 @@ class SpecMixin:
                 else:
                     raise Unsupported("spec equality on " + a.kind)
             return z3.Not(e) if isinstance(op, (ast.IsNot, ast.NotEq)) else e
+        if a.z is None or b.z is None:
+            return z3.BoolVal(False)     # order on None/marker: guarded out by the clause
         az, bz = a.z, b.z
         return {ast.Lt: az < bz, ast.LtE: az <= bz, ast.Gt: az > bz,
                 ast.GtE: az >= bz}[type(op)]
